@@ -160,12 +160,16 @@ def run(chk):
             # the other views of the same expression: the diagonal-only path k(X), products with a matrix, and (quasiseparable) the structured matrix
             wd = np.array([f(a, a) for a in X2])
             Ym = rng.normal(size=(len(X2), 2))
-            views = [("diagonal path k(X)", lambda: np.asarray(k(jnp.asarray(X2))), wd),
-                     ("k.matmul(X1, X2, Y)", lambda: np.asarray(k.matmul(jnp.asarray(X1), jnp.asarray(X2), jnp.asarray(Ym))), want @ Ym)]
-            if fam == "quasisep":
-                wsq = np.array([[f(a, b) for b in X2] for a in X2])
+            small = fam != "quasisep" or int(np.shape(k.observation_model(jnp.asarray(X2[0])))[0]) <= 100
+            views = [("diagonal path k(X)", lambda: np.asarray(k(jnp.asarray(X2))), wd)]
+            if small:
+                views.append(("k.matmul(X1, X2, Y)", lambda: np.asarray(k.matmul(jnp.asarray(X1), jnp.asarray(X2), jnp.asarray(Ym))), want @ Ym))
+            wsq = np.array([[f(a, b) for b in X2] for a in X2])
+            if small:
+                views.append(("k.matmul(X, Y)", lambda: np.asarray(k.matmul(jnp.asarray(X2), jnp.asarray(Ym))), wsq @ Ym))   # two-argument form, both families
+            # (deep products have Kronecker states of dimension prod m_i: the structured views are taken while the state stays below 100)
+            if fam == "quasisep" and int(np.shape(k.observation_model(jnp.asarray(X2[0])))[0]) <= 100:
                 views += [("to_symm_qsm(X).to_dense()", lambda: np.asarray(k.to_symm_qsm(jnp.asarray(X2)).to_dense()), wsq),
-                          ("k.matmul(X, Y)", lambda: np.asarray(k.matmul(jnp.asarray(X2), jnp.asarray(Ym))), wsq @ Ym),
                           ("to_general_qsm(X1, X2) @ I", lambda: np.asarray(k.to_general_qsm(jnp.asarray(X1), jnp.asarray(X2)) @ jnp.eye(len(X2))), want)]
             for vname, gv, wv in views:
                 n_eval += 1
